@@ -34,7 +34,8 @@ SPEC = dict(
         "fault model: a failed step has no effect (SQLite statements and object Delete/rename are atomic); only the streaming copy has partial effects, and those stay in the '<path>.part' staging object (LocalBackend.WriteReader; S3/Azure uploads are atomic) which the '*.parquet' glob never matches; a crash stops the process before the mutation it hits",
         "one file at a time: other files of the measurement enter only through 'some row says hot' / 'some row says cold' at query time (both universally quantified); concurrent migrations of different files are independent because every mutation is keyed by path",
         "DuckDB read_parquet([globs]) returns the rows of every matching file once per matching glob (validated on every observation by running the real DuckDB)",
-        "the 30 s tier cache of MetadataStore.GetTiersForMeasurement is not modelled (UpdateTier/RecordFile invalidate it; observations use a fresh Manager)",
+        "the 30 s tier cache of MetadataStore.GetTiersForMeasurement IS modelled (World.cache, TTL and invalidating mutators generated): C12_cache_coherent / C12_query_warm_eq_fresh / C12_query_visible transfer every visibility theorem to queries in the running process at any time; the harness issues `query` ops through the long-lived MetadataStore under a virtual clock (metadata.go clockified) before/after every kind of step",
+        "several files: the reconcile loop visits every enumerated file (generated shape recLoopExhaustive: no break/return except ctx cancellation), which is what makes the per-file model sound; validated with the tracked file as hot orphan at the first/middle/last position among up to 6 other migrated files",
         "factgen resolves srcBackend/dstBackend/candidate.*Tier through FindCandidates' direction guard; hand-written shape expectations in go/factgen/cmd/c12",
     ],
     assumptions=[
